@@ -30,13 +30,22 @@ OpsetOK(l) == MaxVersion(l) = 13
 
 \* ---- initializers: good ones and every kind of bad one (from the C12 space), as raw TensorProto descriptions
 RawF32(dims, n) == [code |-> 1, dims |-> dims, enc |-> "raw", field |-> "none", raw |-> [k \in 1..(4 * n) |-> (k * 7) % 251], vals |-> <<>>]
-InitKinds == {"good", "short", "long", "ragged", "negdim", "negdim_pair", "negdim_pair3", "negdim_zero", "dims_wrap_0", "dims_wrap_n",
+RawOf(code, dims, nbytes) == [code |-> code, dims |-> dims, enc |-> "raw", field |-> "none", raw |-> [k \in 1..nbytes |-> (k * 7) % 251], vals |-> <<>>]
+InitKinds == {"good", "short", "long", "ragged", "ragged_f64", "ragged_f64_1", "short_f64", "ragged_i64", "ragged_i16", "ragged_u32",
+              "negdim", "negdim_pair", "negdim_pair3", "negdim_zero", "dims_wrap_0", "dims_wrap_n",
               "badtype", "badtype_typed", "empty_dims_two", "huge_dim"}
 InitOf(k) ==
    CASE k = "good"    -> RawF32(<<2, 3>>, 6)
      [] k = "short"   -> RawF32(<<2, 3>>, 5)
      [] k = "long"    -> RawF32(<<2, 3>>, 7)
      [] k = "ragged"  -> [RawF32(<<2>>, 2) EXCEPT !.raw = <<1, 2, 3, 4, 5, 6, 7>>]
+     \* incomplete trailing elements for the other element widths (every reader has its own loop)
+     [] k = "ragged_f64"   -> RawOf(11, <<2>>, 8 * 2 + 3)
+     [] k = "ragged_f64_1" -> RawOf(11, <<1>>, 1)
+     [] k = "short_f64"    -> RawOf(11, <<3>>, 8 * 2)
+     [] k = "ragged_i64"   -> RawOf(7, <<2>>, 8 * 2 + 7)
+     [] k = "ragged_i16"   -> RawOf(5, <<3>>, 2 * 3 + 1)
+     [] k = "ragged_u32"   -> RawOf(12, <<2>>, 4 * 2 + 2)
      [] k = "negdim"  -> RawF32(<<-2, 3>>, 6)
      [] k = "negdim_pair"  -> RawF32(<<-2, -3>>, 6)          \* the product of the dims is the (positive) payload size
      [] k = "negdim_pair3" -> RawF32(<<-1, 2, -3>>, 6)
